@@ -135,6 +135,7 @@ class CallMixin:
         return tree, val
 
     def binary1(self, op, l, r, lv, rv, fr, node, reflected_name, compare):
+        self._cur = (fr, node)
         L = V(l, lv.taint, lv.const if len(lv.kind) == 1 else NOCONST, lv.fn, lv.elem)
         R = V(r, rv.taint, rv.const if len(rv.kind) == 1 else NOCONST, rv.fn, rv.elem)
         taint = lv.taint or rv.taint
@@ -204,6 +205,10 @@ class CallMixin:
                 c = _fold_bin(op, L.const, R.const)
         if compare:
             return V("bool", taint, c)
+        if op in ("floordiv", "mod", "truediv", "divmod") and R.taint and r in INTLIKE and self._cur is not None:
+            fr, node = self._cur
+            self.div_sites[(fr.fq, node.lineno, node.col_offset)] = {
+                "fi": fr.fi, "module": fr.module, "node": node, "conds": list(fr.conds), "base": fr.base, "what": op}
         if l in INTLIKE and r in INTLIKE:
             if "float" in (l, r) or op == "truediv":
                 return V("float", taint, c)
@@ -267,6 +272,7 @@ class CallMixin:
                 star = True
             else:
                 kwargs[kw.arg] = v
+        self.call_records.setdefault(fr.fq, []).append((n, fv, args, kwargs, fr.base, list(fr.conds)))
         t, v = self.call_value(fv, args, kwargs, fr, n, star)
         return concat(tree, t), v
 
@@ -306,6 +312,10 @@ class CallMixin:
             if name in ("one", "zero"):
                 return END, V("BLC")
             if name == "fieldinverse":
+                if taint:
+                    self.div_sites[(fr.fq, n.lineno, n.col_offset)] = {
+                        "fi": fr.fi, "module": fr.module, "node": n, "conds": list(fr.conds), "base": fr.base,
+                        "what": "fieldinverse"}
                 return END, V("int", taint)
             if name == "get_modulus":
                 return END, V("int")
